@@ -33,12 +33,16 @@ def whole_input_copied(F, S):
         raise AnalysisBroken("VolFile: expected one function appending to fileStreamReaders, found %d" % len(openers))
     oa = openers[0]
     w = ("var", wf.params[0]["n"], wf.params[0]["d"])
-    copies = [nd for nd in wf.nodes if nd["k"] == "CXXMemberCallExpr" and nd.get("fname") == "Write" and len(nd.get("args", [])) == 1
-              and (nd.get("targs") or [{}])[0].get("int") is not None]
+    # the copy of the input, in WriteFiles or in a helper the block body was moved into
+    from ..through import find_calls
+    csites = find_calls(F, wf, lambda nd: nd["k"] == "CXXMemberCallExpr" and nd.get("fname") == "Write" and len(nd.get("args", [])) == 1
+                        and (nd.get("targs") or [{}])[0].get("int") is not None, depth=2)
+    copies = [c_.node for c_ in csites]
     inst = VOL + "::WriteFiles#copies-reader-i"
     good = len(copies) == 1
     if good:
-        t = wf.term(copies[0]["args"][0])
+        t = csites[0].term(copies[0]["args"][0])
+        t = wf.through_locals_at(t, csites[0].outer_id())
         good = t[0] == "un" and t[1] == "*" and t[2][0] == "idx" and t[2][1][0] == "mem" and t[2][1][2] == "fileStreamReaders"
         idx_w = t[2][2] if good else None
         hdr = [nd for nd in wf.nodes if nd["k"] in CTORS and (nd.get("ctor_rec") or "").endswith("VolFile::SectionHeader")]
